@@ -111,7 +111,7 @@ def cases(draw, prof):
     return {"spec": spec, "options": opts, "prefix": prefix}
 
 
-TOTAL = specgen.profile(domain_rate=0.0, total_preds=True)
+TOTAL = specgen.profile(domain_rate=0.0, total_preds=True, domain_always_true=0.15)
 PARTIAL = specgen.profile(domain_rate=0.0, partial=True)
 PARTS = [
     Part("total", check_total, strategy=lambda ctx: cases(TOTAL), budget={"quick": 220, "thorough": 1500}),
